@@ -60,7 +60,7 @@ func c10Child(c *mon.Child) {
 	nInputs := c.N(50, 100)
 	nSpacings := c.N(8, 14)
 	ks := []int{0, 1, 2, 5, participle.MaxLookahead, -1}
-	for gi, h := range gram.Registry {
+	for gi, h := range gram.WithSubHandles(3) {
 		gp := buildAll(h, ks, gi%3 == 1)
 		if gp.err != nil {
 			c.Feature("grammars_not_built")
